@@ -8,7 +8,10 @@ under the definitional semantics = the oracle; ilog = results under EvalI = the 
 code, only used to classify a failure and to let TLC exhibit the remaining design defect as a refuted
 invariant - the token-sharing defect until /repo e070bf1, now the static partial application), spec/HOF.tla
 (value-state machine: accumulator sequence, one action per higher-order function; laws as
-invariants).
+invariants; sibling machines SpecMixed / SpecTies / SpecColl / SpecSpecial for fn:sort: Python-equal items,
+tying keys, collations, and numbers of different types together with -INF, INF, NaN of xs:double / xs:float).
+Closures templates also cover a DECLARED RESULT TYPE of the inline function (rtd, rtds, rtany: every call form
+converts the result) and focus-dependent function items obtained by fn:function-lookup / made by a path step.
 
 Binding A, Closures: every LEAF of the dumped forest is one complete program.  It is rendered
 (i) as ONE XPath program  let <outer>, $fs := (<scope>) return (call1, "|", call2, ...)  and run
@@ -52,9 +55,10 @@ TIERS = {
                 TwoHoles=True)),
             # inline functions whose parameters have DIFFERENT declared types, partial applications with a
             # placeholder that is not the first argument
+            # ... and inline functions with a DECLARED RESULT TYPE (rtd, rtds, rtany): the result of every call form is converted
             ('typed', dict(
-                Templates={"typ2", "typd", "typ3"}, MaxN=2, MaxEvents=2, MaxMakers=1,
-                PartialIn={"typ2", "typd", "typ3"}, RefIn={"none"}, TwoHoles=True)),
+                Templates={"typ2", "typd", "typ3", "rtd", "rtds", "rtany"}, MaxN=2, MaxEvents=2, MaxMakers=1,
+                PartialIn={"typ2", "typd", "typ3", "rtd", "rtds", "rtany"}, RefIn={"none"}, TwoHoles=True)),
             # NESTED inline functions / constructors in the body read a variable bound two scopes up; the outer
             # function item is called where that variable is unbound (or bound differently)
             ('nested', dict(
@@ -65,13 +69,16 @@ TIERS = {
             ('qnames', dict(
                 Templates={"qshadow", "qother", "qeqparam", "qalias", "qeqref", "qparamalias"},
                 MaxN=2, MaxEvents=2, MaxMakers=0, PartialIn={"none"}, RefIn={"none"}, TwoHoles=False)),
-            # named references to focus-dependent functions made by  source ! name#0  and called later
+            # named references to focus-dependent functions made by  source ! name#0  and called later; the same items
+            # obtained by fn:function-lookup (lk*), and both made by a path step  /r/* / name#0  (*st*)
             ('focus', dict(
-                Templates={"refpos", "refstr", "refslen", "refnlen", "refname"}, MaxN=3, MaxEvents=3, MaxMakers=0,
-                PartialIn={"none"}, RefIn={"none"}, TwoHoles=False)),
+                Templates={"refpos", "refstr", "refslen", "refnlen", "refname", "refstname",
+                           "lkpos", "lkstr", "lkslen", "lknlen", "lkname", "lkstpos", "lkstname"},
+                MaxN=3, MaxEvents=3, MaxMakers=0, PartialIn={"none"}, RefIn={"none"}, TwoHoles=False)),
         ],
         hof=[('d2', dict(MaxDepth=2, MaxLen=3, UniverseName='u4', Big=True))],
         mixed=[('len3', dict(MaxDepth=2, MaxLen=3, UniverseName='u4', Big=True))],
+        special=[('len3', dict(MaxDepth=2, MaxLen=3, UniverseName='u4', Big=True))],
         coll=[('len3', dict(MaxDepth=2, MaxLen=3, UniverseName='u4', Big=True))],
     ),
     'thorough': dict(
@@ -94,8 +101,8 @@ TIERS = {
                 Templates={"for0"}, MaxN=1, MaxEvents=4, MaxMakers=2, PartialIn={"for0"}, RefIn={"for0"},
                 TwoHoles=True)),
             ('typed', dict(
-                Templates={"typ2", "typd", "typ3"}, MaxN=2, MaxEvents=3, MaxMakers=1,
-                PartialIn={"typ2", "typd", "typ3"}, RefIn={"none"}, TwoHoles=True)),
+                Templates={"typ2", "typd", "typ3", "rtd", "rtds", "rtany"}, MaxN=2, MaxEvents=3, MaxMakers=1,
+                PartialIn={"typ2", "typd", "typ3", "rtd", "rtds", "rtany"}, RefIn={"none"}, TwoHoles=True)),
             # NESTED inline functions / constructors in the body read a variable bound two scopes up; the outer
             # function item is called where that variable is unbound (or bound differently)
             ('nested', dict(
@@ -107,11 +114,14 @@ TIERS = {
                 Templates={"qshadow", "qother", "qeqparam", "qalias", "qeqref", "qparamalias"},
                 MaxN=2, MaxEvents=2, MaxMakers=0, PartialIn={"none"}, RefIn={"none"}, TwoHoles=False)),
             ('focus', dict(
-                Templates={"refpos", "refstr", "refslen", "refnlen", "refname"}, MaxN=3, MaxEvents=4, MaxMakers=0,
-                PartialIn={"none"}, RefIn={"none"}, TwoHoles=False)),
+                Templates={"refpos", "refstr", "refslen", "refnlen", "refname", "refstname",
+                           "lkpos", "lkstr", "lkslen", "lknlen", "lkname", "lkstpos", "lkstname"},
+                MaxN=3, MaxEvents=4, MaxMakers=0, PartialIn={"none"}, RefIn={"none"}, TwoHoles=False)),
         ],
         hof=[('d3', dict(MaxDepth=3, MaxLen=3, UniverseName='u4', Big=True))],
         mixed=[('len4', dict(MaxDepth=2, MaxLen=4, UniverseName='u4', Big=True))],
+        # 11 items (also 7e0 and the xs:float NaN) x 5 keys (also integers -> NaN)
+        special=[('len3x', dict(MaxDepth=2, MaxLen=3, UniverseName='u6', Big=True))],
         coll=[('len4', dict(MaxDepth=2, MaxLen=4, UniverseName='u4', Big=True))],
     ),
 }
@@ -158,6 +168,12 @@ def render(e, args_text: str | None = None) -> str:
         return 'xs:double("NaN")'
     if k == 'nzlit':
         return '-0e0'
+    if k == 'inflit':
+        return 'xs:double("INF")' if e['v'] > 0 else 'xs:double("-INF")'
+    if k == 'lookup':
+        return f'function-lookup(xs:QName("fn:{e["name"]}"), {e["arity"]})'
+    if k == 'step':
+        return f'{render(e["s"], args_text)}/{render(e["r"], args_text)}'
     if k == 'some':
         return f'(some ${e["v"]} in {render(e["s"], args_text)} satisfies {render(e["c"], args_text)})'
     if k == 'mapk':
@@ -167,7 +183,8 @@ def render(e, args_text: str | None = None) -> str:
     if k == 'fun':
         types = e.get('types') or ['item()*'] * len(e['params'])
         return 'function(' + ', '.join('$' + p + ('' if t == 'item()*' else ' as ' + t)
-                                       for p, t in zip(e['params'], types)) + ') { ' + body_text(e['body'], args_text) + ' }'
+                                       for p, t in zip(e['params'], types)) + ')' + \
+            ('' if e.get('rtype', 'item()*') == 'item()*' else ' as ' + e['rtype']) + ' { ' + body_text(e['body'], args_text) + ' }'
     if k == 'ref':
         return f'{e["name"]}#{e["arity"]}'
     if k == 'call':
@@ -251,11 +268,15 @@ def project_item(x):
     if isinstance(x, Decimal):
         return ('c', int(x)) if x == int(x) else ('other', repr(x))
     if isinstance(x, float):
+        from elementpath.datatypes import Float
+        flt = isinstance(x, Float)             # xs:float
         if x != x:
-            return ('nan', True)
-        if x in (float('inf'), float('-inf')) or x != int(x):
+            return ('fnan' if flt else 'nan', True)
+        if x in (float('inf'), float('-inf')):
+            return ('finf' if flt else 'inf', 1 if x > 0 else -1)
+        if x != int(x):
             return ('other', repr(x))
-        return ('d', int(x))
+        return ('f' if flt else 'd', int(x))
     if isinstance(x, str):
         return ('s', str(x))
     if isinstance(x, XPathFunction):
@@ -569,6 +590,11 @@ def start_tlc(chk: core.Check, tier: dict, parts) -> dict:
             jobs[('ties', name, 'laws')] = ('HOF', tla.cfg_text(consts, spec='SpecTies', invariants=['LawsTies']), wd,
                                             os.path.join(wd, 'g.dot'))
 
+        for name, consts in tier.get('special', []):
+            wd = os.path.join(chk.scratch, 'special-' + name)
+            jobs[('special', name, 'laws')] = ('HOF', tla.cfg_text(consts, spec='SpecSpecial', invariants=['LawsSpecial']), wd,
+                                               os.path.join(wd, 'g.dot'))
+
     def one(item):
         key, (module, cfg, wd, dot) = item
         # HOF bounds its chains with a guard on TLCGet("level"): one TLC worker = strict breadth-first
@@ -879,12 +905,22 @@ def run_hof(chk: core.Check, name: str, consts: dict, tlc: dict) -> None:
 
 def mixed_item_text(it) -> str:
     (k, v), = it.items()
+    inf = lambda: 'INF' if v > 0 else '-INF'
     return {'i': lambda: str(v), 'c': lambda: f'{v}.0', 'd': lambda: f'{v}e0', 's': lambda: f'"{v}"',
-            'b': lambda: 'true()' if v else 'false()'}[k]()
+            'b': lambda: 'true()' if v else 'false()',
+            'f': lambda: f'xs:float({v})', 'inf': lambda: f'xs:double("{inf()}")', 'finf': lambda: f'xs:float("{inf()}")',
+            'nan': lambda: 'xs:double("NaN")', 'fnan': lambda: 'xs:float("NaN")'}[k]()
 
 
 def mixed_py(it):
     (k, v), = it.items()
+    if k in ('f', 'finf', 'fnan'):
+        from elementpath.datatypes import Float
+        return Float(v if k == 'f' else ('NaN' if k == 'fnan' else ('INF' if v > 0 else '-INF')))
+    if k == 'inf':
+        return float('inf') if v > 0 else float('-inf')
+    if k == 'nan':
+        return float('nan')
     return {'i': int, 'c': Decimal, 'd': float, 'b': bool, 's': str}[k](v)
 
 
@@ -973,6 +1009,119 @@ def run_mixed(chk: core.Check, name: str, consts: dict, tlc: dict, kind: str = '
     print(f'  HOF.{spec}/{name}: states={r.distinct} edges={len(jobs)} failing_comparisons={n_fail} tlc={r.wall_s:.1f}s',
           flush=True)
 
+
+
+# ---------------------------------------------------------------------------------------
+# HOF!SpecSpecial: fn:sort / array:sort over numbers of different types together with -INF, INF, NaN (double and float)
+
+def key_kind(kv) -> str:
+    """class of one sort key as printed by TLC (HOF!SpecialKeyTable): i c d f ninf pinf nan"""
+    (k, v), = kv[0].items()
+    if k in ('inf', 'finf'):
+        return 'pinf' if v > 0 else 'ninf'
+    return 'nan' if k == 'fnan' else k
+
+
+def special_features(src, key, keytab) -> dict:
+    """structural facts about the input (which classes of keys meet); the keys are TLC's"""
+    kinds = {key_kind(keytab[(key, x)]) for x in src}
+    floats = any(next(iter(keytab[(key, x)][0])) == 'f' for x in src)
+    doubles = any(next(iter(keytab[(key, x)][0])) in ('d', 'inf', 'nan') for x in src)
+    exact = bool(kinds & {'i', 'c'})
+    return dict(nan_vs_exact='nan' in kinds and exact, ninf_vs_exact='ninf' in kinds and exact,
+                pinf_vs_exact='pinf' in kinds and exact, float_vs_double=floats and doubles)
+
+
+def special_python_api(pairs, ftext):
+    """parser.get_function('sort', 1 | 3)(python sequence[, [], function object])"""
+    import elementpath
+    from elementpath import XPathContext
+
+    def api():
+        P = parsers()['3.1']
+        ctx = XPathContext(root=None, item=1)
+        seq = [mixed_py({k: v}) for k, v in pairs]
+        if ftext is None:
+            return P().get_function('sort', 1)(seq, context=ctx)
+        fobj = elementpath.select(None, ftext, parser=P, item=1)
+        return P().get_function('sort', 3)(seq, [], fobj, context=ctx)
+    return guarded(api)
+
+
+def special_worker(job):
+    catalog, keytab, edges = job
+    fails, n_eval = [], 0
+    for (src, key, dst) in edges:
+        ftext = None if key == 'none' else render(catalog[key]['e'])
+        items = ', '.join(mixed_item_text(x) for x in src)
+        stext = '(' + items + ')'
+        exp = abstract(dst)
+        if ftext is None:
+            texts = [('inline-1', f'sort({stext})'),
+                     ('ref', f'let $srt := sort#1 return $srt({stext})'),
+                     ('apply-item', f'apply(sort#1, [{stext}])'),
+                     ('array', f'array:flatten(array:sort([{items}]))')]
+        else:
+            texts = [('inline', f'sort({stext}, (), {ftext})'),
+                     ('var', f'let $f := {ftext} return sort({stext}, (), $f)'),
+                     ('ref', f'let $srt := sort#3 return $srt({stext}, (), {ftext})'),
+                     ('array', f'array:flatten(array:sort([{items}], (), {ftext}))')]
+        outs = [(style, text, run_xpath(text, '3.1')) for style, text in texts]
+        pairs = [list(*x.items()) for x in src]
+        outs.append(('python', f'get_function("sort")({[mixed_py(x) for x in src]!r}, [], {ftext})',
+                     special_python_api(pairs, ftext)))
+        for style, text, out in outs:
+            n_eval += 1
+            obs = project(out[1]) if out[0] == 'ok' else None
+            if obs != exp:
+                feat = dict(part='sortspecial', hof='sort', key=key, style=style, src_len=len(src),
+                            outcome='value' if out[0] == 'ok' else f'{out[0]}:{out[1]}')
+                feat.update(special_features(src, key, keytab))
+                case = dict(part='sortspecial', text=text, parser='3.1', style=style)
+                if style == 'python':
+                    case.update(pairs=pairs, ftext=ftext)
+                fails.append((feat, case, exp, obs if obs is not None else list(out)))
+    return n_eval, fails
+
+
+def run_special(chk: core.Check, name: str, consts: dict, tlc: dict) -> None:
+    dot = os.path.join(chk.scratch, 'special-' + name, 'g.dot')
+    r = tla.require_ok(tlc[('special', name, 'laws')], f'HOF.SpecSpecial/{name}', min_distinct=50)
+    chk.model(f'HOF.SpecSpecial/{name}', r)
+    catalog = load_table(r.output, 'catalog')
+    keytab = {(k, x): v for (k, x, v) in load_table(r.output, 'speckeys')}
+    g = tla.load_dot(dot)
+    os.remove(dot)
+    jobs, distinct, met = [], set(), set()
+    for s_, d_, a, args in g.edges:
+        if a != 'SortSpecialA':
+            raise tla.MachineryError(f'unexpected action {a} in SpecSpecial')
+        src, dst = g.states[s_]['acc'], g.states[d_]['acc']
+        jobs.append((src, args[0], dst))
+        # non-trivial: a special key (-INF, INF, NaN) together with an integer / decimal key, and the order changes
+        f = special_features(src, args[0], keytab)
+        met |= {k for k, v in f.items() if v}
+        if (f['nan_vs_exact'] or f['ninf_vs_exact'] or f['pinf_vs_exact']) and src != dst:
+            distinct.add((src, args[0]))
+    if met != {'nan_vs_exact', 'ninf_vs_exact', 'pinf_vs_exact', 'float_vs_double'} or not distinct:
+        raise tla.MachineryError(f'SpecSpecial: key classes never met: {met} (vacuous)')
+    jobs.sort(key=lambda e: (e[1], tla.to_tla(e[0])))
+    chk.add('transitions', len(jobs))
+    chk.add('traces_validated_against_impl', len(jobs))
+    chk.add('distinct_nontrivial', len(distinct))
+    e = [j for j in jobs if j[1] == 'ninfint' and len(j[0]) == 3][len(jobs) // 9]
+    chk.sample(dict(expr=f'sort(({", ".join(mixed_item_text(x) for x in e[0])}), (), {render(catalog[e[1]]["e"])})',
+                    expected=abstract(e[2])))
+    results = core.pool_map(special_worker, [(catalog, keytab, c) for c in core.chunked(jobs, 32)], procs=PROCS)
+    n_fail = 0
+    for n_eval, fails in results:
+        chk.add('evaluations', n_eval)
+        chk.add('sortspecial_evaluations', n_eval)
+        for feat, case, exp, obs in fails:
+            n_fail += 1
+            chk.fail(feat, case, exp, obs, what=(case['text'] or '')[:300])
+    print(f'  HOF.SpecSpecial/{name}: states={r.distinct} edges={len(jobs)} failing_comparisons={n_fail} tlc={r.wall_s:.1f}s',
+          flush=True)
 
 
 # ---------------------------------------------------------------------------------------
@@ -1097,6 +1246,9 @@ def replay(rec: dict) -> int:
     if case.get('part') == 'closures' and case.get('binding') == 'python':
         out = run_python_api(case['tpl'], case['n'], case['events'], case.get('parser', '3.1'))
         got = out[1][case['call']] if out[0] == 'ok' and case['call'] < len(out[1]) else out
+    elif case.get('part') == 'sortspecial' and case.get('style') == 'python':
+        out = special_python_api(case['pairs'], case['ftext'])
+        got = project(out[1]) if out[0] == 'ok' else out
     elif case.get('part') == 'hof' and case.get('style') == 'python':
         out = hof_python_api(case['action'], _tup(case['args']), case['src_items'], case['ftext'], case['zeros'])
         got = project(out[1]) if out[0] == 'ok' else out
@@ -1122,7 +1274,10 @@ def run(chk: core.Check) -> None:
     chk.assumptions += [
         'spec/FnEval.tla Eval/Apply (environment-passing semantics, XPath 3.1 3.1.5-3.1.7, F&O 3.1 16.1-16.2) is the oracle; '
         'EvalI (implementation-shaped) only classifies failures',
-        'values: small integers, integral doubles, strings, booleans; sort keys are single numbers (default collation never consulted)',
+        'values: small integers, integral decimals / doubles / floats, -INF, INF, NaN, strings, booleans; sort keys are single '
+        'numbers (default collation never consulted)',
+        'F&O 3.1 16.2.6 deep-less-than orders numeric sort keys: NaN < -INF < finite (after promotion) < INF; '
+        'fn:function-lookup binds the focus of its own call (F&O 3.1 16.1.1)',
     ]
     tier = TIERS[chk.tier]
     parts = ('closures', 'hof') if DEV_PART == 'all' else (DEV_PART,)
@@ -1146,6 +1301,8 @@ def run(chk: core.Check) -> None:
             run_mixed(chk, name, consts, tlc, kind='ties')
         for name, consts in tier.get('coll', []):
             run_coll(chk, name, consts, tlc)
+        for name, consts in tier.get('special', []):
+            run_special(chk, name, consts, tlc)
     chk.coverage['exhaustive'] = True
     chk.coverage['rule'] = (
         'Closures: every leaf of the TLC forest (template x 1..3 iterations of one function expression x every '
@@ -1160,5 +1317,8 @@ def run(chk: core.Check) -> None:
         '(NaN via number#1, constant NaN, -0e0/0e0, (), 1/1e0); non-trivial = two different non-numeric strings in the input.  '
         'HOF edges are also run with the higher-order function itself as a function item (name#n twice in one expression, '
         'apply(name#n, [...])) and $f bound once and already called; maps and arrays are in the function catalog.  '
+        'SpecSpecial: every sequence up to the bound over -5, 7, 2.0, 3e0, xs:float(4), -INF, INF, NaN, xs:float(-INF) x '
+        '4 keys (absent, identity, integers -> -INF, integers and decimals -> INF): sort, sort#n, apply(sort#1), array:sort, '
+        'Python API; non-trivial = a special key meets an integer / decimal key and the order changes.  '
         'SpecColl: every sequence up to the bound over "b","A","a","B" x 4 collations (absent/empty, codepoint, '
         'html-ascii-case-insensitive, unsupported) x 3 keys (absent, identity, string#1): sort, sort#n, array:sort, Python API.')
